@@ -33,7 +33,12 @@ type flashSpec struct {
 	// header naming pathB, "back-fallback" = Back(pathB) without Referer
 	status int
 	kind   string
+	// chained redirects: each intermediate hop consumes what arrives, attaches hops[i] and
+	// redirects on (the last one to pathB); the redirecting handler A targets the first hop
+	hops [][]fmsg
 }
+
+var flashPathsMid = []string{"/confirm", "/users/confirm", "/x/y/confirm", "/step/two/of/three"}
 
 func (sp *flashSpec) wantStatus() int {
 	if sp.status == 0 {
@@ -129,6 +134,9 @@ func buildFlashApp(spec *flashSpec, lookKeys []string) *flashApp {
 		case "back-fallback":
 			return r.Back(spec.b())
 		}
+		if len(spec.hops) > 0 {
+			return r.To(flashPathsMid[0])
+		}
 		return r.To(spec.b())
 	}
 	for _, p := range flashPathsA[:3] {
@@ -136,7 +144,7 @@ func buildFlashApp(spec *flashSpec, lookKeys []string) *flashApp {
 		app.Post(p, a)
 	}
 	app.Get("/warm", func(c fiber.Ctx) error { return c.SendString("warm") })
-	b := func(c fiber.Ctx) error {
+	observe := func(c fiber.Ctx) {
 		rd := c.Redirect()
 		rep := &bReport{ran: true, byKey: map[string]fiber.FlashMessage{}, oldByKey: map[string]fiber.OldInputData{}}
 		msgs, olds := rd.Messages(), rd.OldInputs()
@@ -160,10 +168,29 @@ func buildFlashApp(spec *flashSpec, lookKeys []string) *flashApp {
 			rep.oldByKey[k] = fiber.OldInputData{Key: strings.Clone(o.Key), Value: strings.Clone(o.Value)}
 		}
 		*fa.rep = *rep
+	}
+	b := func(c fiber.Ctx) error {
+		observe(c)
 		return c.SendString("b")
 	}
 	for _, p := range flashPathsB[:3] {
 		app.Get(p, b).Name("target:" + p)
+	}
+	for i, p := range flashPathsMid {
+		i := i
+		app.Get(p, func(c fiber.Ctx) error {
+			observe(c)
+			r := c.Redirect()
+			if i < len(spec.hops) {
+				for _, m := range spec.hops[i] {
+					r.With(m.Key, m.Value, m.Level)
+				}
+			}
+			if i+1 < len(spec.hops) {
+				return r.To(flashPathsMid[i+1])
+			}
+			return r.To(spec.b())
+		})
 	}
 	fa.pathB = spec.b()
 	fa.app = app
@@ -172,8 +199,12 @@ func buildFlashApp(spec *flashSpec, lookKeys []string) *flashApp {
 }
 
 func (fa *flashApp) serveB(e *ev.Env, c *ev.Case, cookie []byte, hasCookie bool) (rs []*strict.Response, perr *strict.ParseError, out []byte, panicked bool) {
+	return fa.serveAt(e, c, fa.pathB, cookie, hasCookie)
+}
+
+func (fa *flashApp) serveAt(e *ev.Env, c *ev.Case, path string, cookie []byte, hasCookie bool) (rs []*strict.Response, perr *strict.ParseError, out []byte, panicked bool) {
 	*fa.rep = bReport{}
-	req := []byte("GET " + fa.pathB + " HTTP/1.1\r\nHost: flash.example.com\r\n")
+	req := []byte("GET " + path + " HTTP/1.1\r\nHost: flash.example.com\r\n")
 	if hasCookie {
 		req = append(req, "Cookie: "+fiber.FlashCookieName+"="...)
 		req = append(req, cookie...)
@@ -497,7 +528,7 @@ func anyString(r *gen.Rand, n int) string {
 	}
 }
 
-var flSeen struct{ complete, hostile, stale int }
+var flSeen struct{ complete, hostile, stale, chain int }
 
 func runFlash(e *ev.Env) {
 	setup(e)
@@ -536,6 +567,10 @@ func runFlash(e *ev.Env) {
 	}
 	script("redirect-route", &flashSpec{msgs: []fmsg{{Key: "notice", Value: "saved", Level: 'A'}}, noLevel: []bool{false}, kind: "route"}, getA)
 	script("redirect-back-referer", &flashSpec{msgs: []fmsg{{Key: "notice", Value: "saved", Level: 'A'}}, noLevel: []bool{false}, kind: "back-referer"}, getA)
+	e.Corpus("chained-redirect-two-hops", func(c *ev.Case) {
+		chainScript(e, c, &flashSpec{msgs: []fmsg{{Key: "notice", Value: "submitted", Level: 'A'}}, noLevel: []bool{false},
+			hops: [][]fmsg{{{Key: "notice", Value: "confirmed", Level: 'B'}}}})
+	})
 	// a message key that is also a submitted field, in both call orders
 	script("message-key-equals-field-input-first", &flashSpec{msgs: []fmsg{{Key: "email", Value: "is taken", Level: 'A'}}, noLevel: []bool{false}, withInput: true, inputFirst: true},
 		[]byte("GET /a?email=john%40example.com HTTP/1.1\r\nHost: flash.example.com\r\n\r\n"))
@@ -597,6 +632,30 @@ func runFlash(e *ev.Env) {
 		flashScript(e, c, spec, reqA)
 	})
 
+	// -------- chained redirects ---------------------------------------------------------------
+	e.Cases("chain", e.N(1500, 60000), func(c *ev.Case) {
+		r := c.R
+		set := func(lo int) []fmsg {
+			ms := make([]fmsg, r.Range(lo, 3))
+			seen := map[string]bool{}
+			for i := range ms {
+				k := safeBytes(r, r.Range(1, 10))
+				for seen[k] {
+					k += "x"
+				}
+				seen[k] = true
+				ms[i] = fmsg{Key: k, Value: safeBytes(r, r.Range(0, 30)), Level: safeByte(r)}
+			}
+			return ms
+		}
+		spec := &flashSpec{msgs: set(1), pathA: gen.Pick(r, flashPathsA), pathB: gen.Pick(r, flashPathsB)}
+		spec.noLevel = make([]bool, len(spec.msgs))
+		for i, n := 0, r.Range(1, 3); i < n; i++ {
+			spec.hops = append(spec.hops, set(1))
+		}
+		chainScript(e, c, spec)
+	})
+
 	// -------- hostile cookies ----------------------------------------------------------------
 	e.Cases("hostile", e.N(20000, 2000000), func(c *ev.Case) {
 		r := c.R
@@ -608,7 +667,7 @@ func runFlash(e *ev.Env) {
 			return ms
 		}
 		switch r.Intn(13) {
-		case 0, 1:
+		case 0:
 			b := make([]byte, r.Range(1, 60))
 			for i := range b {
 				b[i] = byte(0x20 + r.Intn(0xe0))
@@ -659,13 +718,27 @@ func runFlash(e *ev.Env) {
 			b = mpStr(mpStr(b, "level"), "notanumber")
 			b = mpBool(mpStr(b, "isOldInput"), false)
 			hostileCookie(e, c, "invalid", b)
-		case 9:
-			b := mpFlash(mk(r.Range(1, 3)))
-			tail := make([]byte, r.Range(1, 8))
-			for i := range tail {
-				tail[i] = safeByte(r)
+		case 9, 1:
+			// a valid encoding (0..3 messages) followed by more bytes: junk, one stray byte, nil,
+			// another complete list
+			b := mpFlash(mk(r.Range(0, 3)))
+			var tail []byte
+			switch r.Intn(5) {
+			case 0:
+				tail = []byte{safeByte(r)}
+			case 1:
+				tail = []byte{0xc0}
+			case 2:
+				tail = mpFlash(mk(r.Range(0, 2)))
+			case 3:
+				tail = append(mpFlash(mk(1)), safeByte(r))
+			default:
+				tail = make([]byte, r.Range(1, 12))
+				for i := range tail {
+					tail[i] = safeByte(r)
+				}
 			}
-			hostileCookie(e, c, "nonconforming", append(b, tail...))
+			hostileCookie(e, c, "", append(b, tail...))
 		case 10:
 			// huge announced map / string sizes, deep nesting behind an unknown field
 			switch r.Intn(3) {
@@ -708,6 +781,9 @@ func runFlash(e *ev.Env) {
 		}
 		if flSeen.hostile == 0 {
 			e.Inconclusive("no hostile cookie reached handler B in this shard")
+		}
+		if flSeen.chain == 0 {
+			e.Inconclusive("no chained redirect completed in this shard")
 		}
 		if flSeen.stale == 0 {
 			e.Inconclusive("no cookie was presented on a context that had just delivered real messages")
@@ -1207,9 +1283,10 @@ func hostileCookie(e *ev.Env, c *ev.Case, kind string, cookie []byte) {
 	view := serverView(cookie)
 	_, wellFormed := mpWellFormed(view)
 	if kind == "" || kind == "invalid" || kind == "nonconforming" {
-		if rest, ok := mpSkip(view, 0); ok {
-			kind = "nonconforming" // MessagePack all right (possibly with bytes after it), not a message list
-			_ = rest
+		if rest, ok := mpSkip(view, 0); ok && len(rest) > 0 {
+			kind = "trailing-bytes" // one complete MessagePack object and then more bytes
+		} else if ok {
+			kind = "nonconforming" // MessagePack all right, not a message list fiber writes
 		} else {
 			kind = "invalid"
 		}
@@ -1266,13 +1343,16 @@ func hostileCookie(e *ev.Env, c *ev.Case, kind string, cookie []byte) {
 		e.Sample("hostile-"+kind, map[string]any{"cookie": show(cookie), "messages_seen": rep.nMsg, "old_inputs_seen": rep.nOld})
 		e.Nontrivial("hostile", kind, itoa(len(view)/4), itoa(min(rep.nMsg, 99)), itoa(min(rep.nOld, 99)))
 		if n := rep.nMsg + rep.nOld; n > 0 {
-			if kind != "invalid" {
+			if kind == "nonconforming" {
 				// valid MessagePack that is not an encoding fiber writes (missing / extra /
 				// duplicate fields): the statement does not clearly forbid reading it; counted
 				e.Stat("hostile_nonconforming_yields_messages", 1)
 				return
 			}
 			cls := "decode-error-keeps-partial-list"
+			if kind == "trailing-bytes" {
+				cls = "bytes-after-the-encoding-ignored"
+			}
 			detail["messages_seen"] = n
 			if len(rep.messages) > 0 {
 				detail["first_message"] = msgKey(rep.messages[0].Key, rep.messages[0].Value, rep.messages[0].Level)
@@ -1358,4 +1438,124 @@ func staleCookie(e *ev.Env, c *ev.Case, first, announce int) {
 			return
 		}
 	}
+}
+
+// ---------------------------------------------------------------------------------------------
+// chained redirects
+
+// uaClient is a §5.2 user agent for the flash cookie: Set-Cookie lines are applied in order, a
+// line replaces or deletes the stored cookie with the same name and path, the value runs to the
+// first ';'.
+type uaClient struct {
+	jar *strict.Jar
+	val []byte
+}
+
+func (u *uaClient) apply(r *strict.Response, reqPath string) {
+	now := serverNow(r)
+	for _, l := range r.All("Set-Cookie") {
+		if !strings.HasPrefix(l, fiber.FlashCookieName+"=") {
+			continue
+		}
+		_, attrs := splitCookieAttrs([]byte(l))
+		synth := fiber.FlashCookieName + "=x"
+		if attrs != "" {
+			synth += "; " + attrs
+		}
+		probe := &strict.Jar{}
+		storeFrom(probe, synth, now, reqPath)
+		storeFrom(u.jar, synth, now, reqPath)
+		if probe.Len() > 0 { // not an expiry: this is the value now held
+			v := strings.TrimPrefix(l, fiber.FlashCookieName+"=")
+			if i := strings.IndexByte(v, ';'); i >= 0 {
+				v = v[:i]
+			}
+			u.val = []byte(strings.Trim(v, " \t"))
+		}
+	}
+}
+
+func (u *uaClient) cookieFor(path string) ([]byte, bool) {
+	if holdsFlash(u.jar, path) {
+		return u.val, true
+	}
+	return nil, false
+}
+
+// chainScript: A attaches first and redirects to hop 1; every hop must see exactly what the
+// handler before it attached, attaches its own messages and redirects on; the final target sees
+// the last hop's messages once. All message sets are made of bytes that travel in a cookie.
+func chainScript(e *ev.Env, c *ev.Case, spec *flashSpec) {
+	var look []string
+	sets := append([][]fmsg{spec.msgs}, spec.hops...)
+	for _, set := range sets {
+		for _, m := range set {
+			look = append(look, m.Key)
+		}
+	}
+	fa := buildFlashApp(spec, look)
+	ua := &uaClient{jar: &strict.Jar{}}
+	detail := map[string]any{"hops": len(spec.hops), "path_a": spec.a(), "path_b": spec.b()}
+	for i, set := range sets {
+		var ml []string
+		for _, m := range set {
+			ml = append(ml, msgKey(m.Key, m.Value, m.Level))
+		}
+		detail["attached_"+itoa(i)] = ml
+	}
+	e.Stat("chain_scripts", 1)
+
+	path := spec.a()
+	for step := 0; step <= len(spec.hops)+1; step++ {
+		cookie, has := ua.cookieFor(path)
+		if step > 0 && !has {
+			e.Violation(c, "flash|chained-redirect|cookie-of-hop-lost", "after hop "+itoa(step-1)+" the client holds no flash cookie for "+path+": the messages that hop attached are not delivered", detail)
+			return
+		}
+		rs, perr, out, p := fa.serveAt(e, c, path, cookie, has)
+		if p {
+			return
+		}
+		e.Eval(1)
+		detail["response_"+itoa(step)] = show(out)
+		if perr != nil || len(rs) != 1 {
+			// raw bytes in the cookie: the known finding, judged by the plain scripts
+			e.Stat("chain_aborted_unparseable", 1)
+			return
+		}
+		rep := *fa.rep
+		if step > 0 {
+			if !rep.ran {
+				e.Stat("chain_aborted_refused", 1)
+				return
+			}
+			prev := &flashSpec{msgs: sets[step-1], noLevel: make([]bool, len(sets[step-1]))}
+			if what, why := diffMessages(prev, expected(prev), nil, &rep); what != "" {
+				detail["why"] = why
+				e.Violation(c, "flash|chained-redirect|messages-differ-"+what, "hop "+itoa(step)+" does not see what hop "+itoa(step-1)+" attached: "+why, detail)
+				return
+			}
+		}
+		ua.apply(rs[0], path)
+		if step == len(spec.hops)+1 {
+			break
+		}
+		if rs[0].Status/100 != 3 {
+			e.Violation(c, "flash|redirect-response", "hop "+itoa(step)+" did not redirect", detail)
+			return
+		}
+		path = rs[0].Get("Location")
+	}
+	// the final target consumed the last set: nothing may be left
+	if cookie, has := ua.cookieFor(path); has {
+		e.Violation(c, "flash|cookie-not-expired", "after the final target the client still holds the flash cookie", detail)
+		_, _, _, p := fa.serveAt(e, c, path, cookie, true)
+		if !p && fa.rep.ran && fa.rep.nMsg+fa.rep.nOld > 0 {
+			e.Violation(c, "flash|delivered-twice", "the final target sees the messages again", detail)
+		}
+		return
+	}
+	flSeen.chain++
+	e.Stat("chain_scripts_complete", 1)
+	e.Nontrivial("chain", itoa(len(spec.hops)), itoa(len(sets[0])), itoa(len(sets[len(sets)-1])), spec.a(), spec.b())
 }
